@@ -300,6 +300,13 @@ def r10_4(ctx, rep, roles):
             if fv != (True if last else filled):
                 ok, why = False, "is_filled' = %s (last slot=%s, was %s)" % (fv, last, filled)
         stored = [e for e in ws if e[2] and e[2][-1] == ("i",) and e[3] == X]
+        if not stored:
+            # Vec<f64>: `self.values[i] = x` goes through IndexMut::index_mut(&mut self.values, i)
+            for e in ws:
+                root = e[1]
+                if e[3] == X and root[0] == "D" and root[1][0] == "call" and sym.strip_all_generics(root[1][1]).split("::")[-1] == "index_mut" \
+                        and T.mentions_field(T.resolve_locals(eng, row.store, root[1][2][0]), BAS, "values") and T.resolve_locals(eng, row.store, root[1][2][1]) == IDX:
+                    stored.append(e)
         rep.obligation(ok and len(stored) == 1, "C10/R10.4/append/effects", "append(filled=%s,last=%s): %s%s" % (filled, last, why, "" if stored else " value not stored"),
                        where(ap), evaluations=8, sample="append filled=%s last-slot=%s: sum' = sum + x %s; index wraps; is_filled sticky" % (filled, last, "- evicted" if filled else ""))
     rep.floor("append-rows", n, 4)
